@@ -22,6 +22,7 @@ template<class T, bool CHK> struct fptr {
 	template<class U> using rebind = fptr<U, CHK>;
 	using S = std::conditional_t<std::is_void_v<T>, char, T>;
 	std::uintptr_t a_ = 0, lo_ = 0, hi_ = 0;  // opaque address (deliberately not a T*); [lo_,hi_) = storage it may dereference (checked flavour)
+	std::size_t esz_ = sizeof(S);  // the pointer's own idea of its element size: a pointer object produced by re-reading the BYTES of a pointer to another type keeps the old value
 	fptr() = default; fptr(std::nullptr_t) {}  // NOLINT
 	struct raw_t {};
 	fptr(raw_t, T* p, void const* lo, void const* hi) : a_{reinterpret_cast<std::uintptr_t>(p)}, lo_{reinterpret_cast<std::uintptr_t>(lo)}, hi_{reinterpret_cast<std::uintptr_t>(hi)} {}
@@ -29,7 +30,8 @@ template<class T, bool CHK> struct fptr {
 	template<class U, std::enable_if_t<!std::is_convertible_v<U*, T*> && std::is_same_v<std::remove_cv_t<U>, void>, int> = 0> explicit fptr(fptr<U, CHK> const& o) : a_{o.a_}, lo_{o.lo_}, hi_{o.hi_} {}  // static_cast from void pointer
 	void check(std::uintptr_t a) const {
 		++pstats().derefs; if constexpr(CHK) {
-			if(a == 0 || (lo_ == 0 && hi_ == 0)) { ++pstats().null_deref; ptr_violation("null-dereference", "a null / storage-less fancy pointer was dereferenced"); }
+			if(esz_ != sizeof(S)) { ptr_violation((std::string("type-punned-pointer-object:") + st().ctx).c_str(), "a pointer object was obtained by reinterpreting the bytes of a pointer to an element type of another size (the pointer type's own cast was bypassed)"); }
+			else if(a == 0 || (lo_ == 0 && hi_ == 0)) { ++pstats().null_deref; ptr_violation("null-dereference", "a null / storage-less fancy pointer was dereferenced"); }
 			else if(!released_blocks().empty() && released_blocks().count({lo_, hi_})) { ++pstats().released; ptr_violation("dereference-into-released-block", "a pointer into a block that was already returned to the allocator was dereferenced (offset " + std::to_string(long(a) - long(lo_)) + " bytes)"); }
 			else if(a < lo_ || a + sizeof(S) > hi_) { ++pstats().oob; ptr_violation("out-of-bounds-dereference", "dereference at offset " + std::to_string(long(a) - long(lo_)) + " bytes of a block of " + std::to_string(hi_ - lo_) + " bytes"); } } }
 	template<class TT = T, std::enable_if_t<!std::is_void_v<TT>, int> = 0> std::add_lvalue_reference_t<TT> operator*() const { check(a_); return *reinterpret_cast<TT*>(a_); }
@@ -49,6 +51,8 @@ template<class T, bool CHK> struct fptr {
 	// harness-only escape hatch (never used by the library): the raw address, to compare element identity with the model
 	std::uintptr_t vk_addr() const { return a_; }
 };
+
+template<class P2, class T, bool CHK> P2 reinterpret_pointer_cast(fptr<T, CHK> const& p) { using U = typename P2::element_type; return P2{typename P2::raw_t{}, reinterpret_cast<U*>(p.a_), reinterpret_cast<void const*>(p.lo_), reinterpret_cast<void const*>(p.hi_)}; }
 
 template<class T, bool CHK> struct falloc {
 	using value_type = T; using pointer = fptr<T, CHK>; using const_pointer = fptr<T const, CHK>; using void_pointer = fptr<void, CHK>; using const_void_pointer = fptr<void const, CHK>; using size_type = std::size_t; using difference_type = std::ptrdiff_t;
